@@ -92,6 +92,20 @@ def oracle_hostile(ctx, ops, impl):
                     ctx.violation("undocumented-error:" + c, "reply %s is not one of the documented errors" % c, o + "\n")
                 if not c.startswith("E_") and c not in ("OK", "IDENTIFY-RESPONSE"):
                     ctx.violation("unknown-reply", "unexpected reply %r" % txt[:60], o + "\n")
+            if "noident=1" in w and "IDENTIFY-RESPONSE" in codes:
+                ctx.violation("identify-trailing-garbage-accepted",
+                              "an IDENTIFY whose declared body has non-white-space bytes after the JSON document was "
+                              "accepted (answers: %s); it must be refused with E_BAD_BODY" % codes[:4],
+                              "\n".join([ops[0], o]) + "\n")
+            if "legal=1" in w and (codes[:1] != ["IDENTIFY-RESPONSE"] or any(c.startswith("E_") for c in codes)):
+                ctx.violation("honest-identify-kicked",
+                              "a well-formed IDENTIFY (document followed by white space only, possibly arriving in two "
+                              "segments) and valid commands after it were answered %s" % codes[:4],
+                              "\n".join([ops[0], o]) + "\n")
+            if any(x.startswith("T=") and "smuggled" in x.split("=", 1)[1].split(",") for x in q):
+                ctx.violation("body-bytes-run-as-command",
+                              "topic `smuggled` is registered, but it only ever occurs INSIDE a declared IDENTIFY body: "
+                              "bytes of a body were read as a command line", "\n".join([ops[0], o]) + "\n")
             if any(c.startswith("E_") for c in codes[:-1]):
                 ctx.violation("error-not-fatal", "an error reply was not the last reply of the connection", o + "\n")
             # a connection that has ended (however it ended) is in no answer any more
